@@ -73,6 +73,27 @@ def arith_occurrences(spec, lo=None, limit=200000):
     return sorted(occ)
 
 
+def has_any_occurrence(spec):
+    """does an arith spec describe at least one instant at all"""
+    if spec.get('start') is None:
+        return False
+    if spec.get('rdates'):
+        return True
+    rules = spec.get('rules', [])
+    if not rules:
+        return True
+    for r in rules:
+        if 'count' in r:
+            if r['count'] >= 1:
+                return True
+        elif 'until' in r:
+            if r['until'] >= spec['start']:
+                return True
+        else:
+            return True
+    return False
+
+
 def fold(line, width=70, crlf=False, ws=' '):
     """fold a content line RFC 5545 style"""
     nl = '\r\n' if crlf else '\n'
